@@ -14,6 +14,11 @@ theorem htlcid_all_translated : Irismod.Gen.PureHtlcId.untranslated = [] := rfl
 theorem htlcid_translated_pinned : Irismod.Gen.PureHtlcId.translated = ["GetHashLock(secret,timestamp)",
      "GetID(sender,to,amount,hashLock,read_amount_Sort__String)"] := rfl
 
+/-- every rejecting guard (an `if` ending in the return of an error, or in a panic) of the translated functions and of
+the handlers around them, as source text in source order: removing, weakening or reordering one breaks this -/
+theorem htlcid_guards_pinned : Irismod.Gen.PureHtlcId.guards =
+    [] := rfl
+
 theorem Uint64ToBigEndian_eq_model (n : Nat) : Uint64ToBigEndian n = be64 n := rfl
 
 /-- `GetHashLock` = the model's `genLock` (as bytes), for every secret and timestamp -/
